@@ -18,6 +18,7 @@ import PgProofs.EvoPmxPerm
 import PgProofs.EvoCyclePerm
 import PgProofs.EvoCycleTotal
 import PgProofs.EvoLaws
+import PgProofs.EvoNestP
 import PgProofs.EvoFuel
 import PgProofs.EvoDetPrims
 import PgModel.EvoSched
@@ -556,6 +557,44 @@ theorem C14_sched_pointwise (a b : Sched) (c : Int) (s : Nat) :
   refine ⟨rfl, rfl, ?_⟩
   intro x y hx hy
   simp [Sched.eval, hx, hy]
+
+/-! ## Nested populations: `.for_each(op)` and `.flatten(max_level)` -/
+
+/-- `flatten` (any `max_level`, any nesting) returns exactly the individuals it was given, in order;
+so does the grouping of a population into lists of `k`. -/
+theorem C14_law_flatten_items (m : Option Nat) (fuel level k : Nat) (hk : 0 < k) (xs : List Nest) :
+    itemsAll (flattenList m fuel level xs) = itemsAll xs ∧
+    itemsAll (chunk k xs.length xs) = itemsAll xs :=
+  ⟨items_flattenList m fuel level xs, items_chunk k hk xs.length xs (Nat.le_refl _)⟩
+
+/-- a pipeline of stages (ordinary operations, grouping, `.for_each(op)`, `.flatten`) keeps every
+element-wise invariant of the individuals that its operations keep — validity, alignment, membership. -/
+theorem C14_algebra_nested (P : Ind → Prop) (S : Nat → Prop) :
+    ∀ (stages : List NStage),
+      (∀ stg ∈ stages, ∀ e, (stg = .flat e ∨ stg = .forEach e) → ∀ op ∈ leaves e, Preserves P S op) →
+      ∀ xs st out st', (∀ x ∈ itemsAll xs, P x) → S st.nextUid →
+        evalStages stages xs st = .ok (out, st') → (∀ y ∈ itemsAll out, P y) ∧ S st'.nextUid := by
+  intro stages
+  induction stages with
+  | nil =>
+    intro _ xs st out st' hp hs h
+    simp only [evalStages] at h
+    rw [pure_ok] at h
+    obtain ⟨rfl, rfl⟩ := h
+    exact ⟨hp, hs⟩
+  | cons stg rest ih =>
+    intro hl xs st out st' hp hs h
+    simp only [evalStages] at h
+    rw [bind_ok] at h
+    obtain ⟨ys, s1, h1, h2⟩ := h
+    obtain ⟨hy, hs1⟩ := evalStage_preserves stg
+      (fun e he => eval_preserves e (hl stg List.mem_cons_self e he)) xs st ys s1 hp hs h1
+    exact ih (fun s' hs' => hl s' (List.mem_cons_of_mem _ hs')) ys s1 out st' hy hs1 h2
+
+/-- `x.for_each(lambda d: [d, [d]]).flatten()` on a flat population: every individual twice. -/
+example : itemsAll (flattenList none 5 0 ((ofPop [{ uid := 0, dna := f21Dna, fit := none }]).map
+    (fun n => Nest.list [n, .list [n]]))) = [{ uid := 0, dna := f21Dna, fit := none }, { uid := 0, dna := f21Dna, fit := none }] := by
+  rw [items_flattenList]; simp [ofPop, itemsAll, Nest.items]
 
 /-! ## Fuel adequacy: the bounded recursions of the model never stop for lack of fuel -/
 
